@@ -69,6 +69,9 @@ type Case struct {
 	Cmd   string            `json:"cmd"`
 	Files map[string]string `json:"files"`
 	Opts  Opts              `json:"opts"`
+	// Warm, when set, is an earlier call of a library command in the same simulated process (its own
+	// input, no faults, output thrown away): package-level state it leaves behind is what the call under test meets.
+	Warm *Case `json:"warm,omitempty"`
 }
 
 // RunCfg is everything about one execution that is not the command's input:
@@ -162,22 +165,35 @@ func Exec(c *Case, rc *RunCfg) *Result {
 		res.Tap = &tapStats{}
 		cfg.Tap = res.Tap.tap
 	}
-	in := func(name string) io.Reader { return env.reader(name, env.inputs[name]) }
 	out := env.outWriter()
+	var call func(c *Case, o Opts, env *ioEnv, out *simWriter) error
 	body := func() {
+		if c.Warm != nil {
+			wenv := newIOEnv(nil, 0)
+			for k, v := range c.Warm.Files {
+				wenv.inputs[k] = []byte(v)
+			}
+			wo := c.Warm.Opts
+			wo.Threads = o.Threads
+			_ = call(c.Warm, wo, wenv, wenv.outWriter())
+		}
+		res.Err = call(c, o, env, out)
+	}
+	call = func(c *Case, o Opts, env *ioEnv, out *simWriter) (err error) {
+		in := func(name string) io.Reader { return env.reader(name, env.inputs[name]) }
 		switch c.Cmd {
 		case "toma":
-			res.Err = sam.ToMultiAlign(in("sam"), out, o.Wrap, o.Start, o.End, o.Pad, o.Threads)
+			err = sam.ToMultiAlign(in("sam"), out, o.Wrap, o.Start, o.End, o.Pad, o.Threads)
 		case "topa":
-			res.Err = sam.ToPairAlign(in("sam"), in("ref"), o.OutDir, o.Wrap, o.Start, o.End, o.OmitRef, o.OmitIns, o.Threads)
+			err = sam.ToPairAlign(in("sam"), in("ref"), o.OutDir, o.Wrap, o.Start, o.End, o.OmitRef, o.OmitIns, o.Threads)
 		case "indels":
 			// both tables go to files; standard output only carries the deprecation notice
 			ins, del := &bytes.Buffer{}, &bytes.Buffer{}
 			env.files["insertions.txt"], env.files["deletions.txt"] = ins, del
 			env.order = append(env.order, "insertions.txt", "deletions.txt")
-			res.Err = sam.Indels(in("sam"), &simWriter{env: env, dest: "files", buf: ins}, &simWriter{env: env, dest: "files", buf: del}, o.MinCount)
+			err = sam.Indels(in("sam"), &simWriter{env: env, dest: "files", buf: ins}, &simWriter{env: env, dest: "files", buf: del}, o.MinCount)
 		case "samvariants":
-			res.Err = sam.Variants(in("sam"), in("ref"), o.RefFromFile, in("anno"), o.AnnoSuffix, out, o.Start, o.End, o.Aggregate, o.Threshold, o.AppendSNP, o.Threads)
+			err = sam.Variants(in("sam"), in("ref"), o.RefFromFile, in("anno"), o.AnnoSuffix, out, o.Start, o.End, o.Aggregate, o.Threshold, o.AppendSNP, o.Threads)
 		case "variants":
 			var msa io.Reader
 			if realMode {
@@ -187,28 +203,29 @@ func Exec(c *Case, rc *RunCfg) *Result {
 			} else {
 				msa = simrt.NewFile("msa.fasta", env.reader("msa", env.inputs["msa"]))
 			}
-			res.Err = variants.Variants(msa, o.Stdin, o.RefID, in("anno"), o.AnnoSuffix, out, o.Start, o.End, o.Aggregate, o.Threshold, o.AppendSNP, o.Threads)
+			err = variants.Variants(msa, o.Stdin, o.RefID, in("anno"), o.AnnoSuffix, out, o.Start, o.End, o.Aggregate, o.Threshold, o.AppendSNP, o.Threads)
 		case "snps":
-			res.Err = snps.SNPs(in("ref"), in("query"), o.HardGaps, o.Aggregate, o.Threshold, out)
+			err = snps.SNPs(in("ref"), in("query"), o.HardGaps, o.Aggregate, o.Threshold, out)
 		case "closest":
-			res.Err = closest.Closest(in("query"), in("target"), o.Measure, out, o.Threads)
+			err = closest.Closest(in("query"), in("target"), o.Measure, out, o.Threads)
 		case "closestn":
-			res.Err = closest.ClosestN(o.N, o.MaxDist, in("query"), in("target"), o.Measure, out, o.Table, o.Threads)
+			err = closest.ClosestN(o.N, o.MaxDist, in("query"), in("target"), o.Measure, out, o.Table, o.Threads)
 		case "cli":
-			res.Err = gcmd.VerifExecute(o.Args)
+			err = gcmd.VerifExecute(o.Args)
 		case "updownlist":
-			res.Err = updown.List(in("ref"), in("query"), out)
+			err = updown.List(in("ref"), in("query"), out)
 		case "topranking":
-			res.Err = updown.TopRanking(in("query"), in("target"), in("ref"), out, o.Table, o.QType, o.TType, o.Ignore,
+			err = updown.TopRanking(in("query"), in("target"), in("ref"), out, o.Table, o.QType, o.TType, o.Ignore,
 				o.SizeTotal, o.SizeUp, o.SizeDown, o.SizeSide, o.SizeSame, o.DistAll, o.DistUp, o.DistDown, o.DistSide,
 				o.ThreshPair, o.ThreshTarg, o.NoFill, o.DistPush)
 		default:
 			if f, ok := extraCmds[c.Cmd]; ok {
-				res.Err = f(c, &o, env, out)
+				err = f(c, &o, env, out)
 			} else {
 				panic("harness: unknown command " + c.Cmd)
 			}
 		}
+		return err
 	}
 	if realMode {
 		// the untransformed tree on the real Go runtime (translation-validation self-test only)
@@ -247,6 +264,12 @@ func stepLimit(c *Case) int {
 	n := 0
 	for _, v := range c.Files {
 		n += len(v)
+	}
+	if c.Warm != nil {
+		n += 500
+		for _, v := range c.Warm.Files {
+			n += len(v)
+		}
 	}
 	return 20000 + 40*n
 }
